@@ -206,6 +206,12 @@ pub fn prop_key(p: &mut Prng) -> raw::ProprietaryKey {
 /// proprietary key that no map interprets
 fn foreign_prop_key(p: &mut Prng, first_free_subtype: u8) -> raw::ProprietaryKey {
     let nk = p.len_biased(40);
+    if p.chance(1, 4) {
+        // a near miss: the subtype and key shape of a pair the maps DO interpret, under a prefix that is not "pset"
+        let prefix: &[u8] = *p.pick(&[&b""[..], b"pse", b"psett", b"PSET", b"qset", b"pset\0", b"p"]);
+        let nk = *p.pick(&[0usize, 0, 32, 33]);
+        return raw::ProprietaryKey { prefix: prefix.to_vec(), subtype: p.below(0x17) as u8, key: p.bytes(nk) };
+    }
     if p.chance(1, 3) {
         raw::ProprietaryKey { prefix: b"pset".to_vec(), subtype: first_free_subtype.saturating_add(p.below(40) as u8), key: p.bytes(nk) }
     } else {
@@ -410,8 +416,9 @@ pub fn input(p: &mut Prng, s: &PsetSpec) -> Input {
     }
     if s.extras {
         for _ in 0..p.usize_below(3) {
-            let n = p.len_biased(60);
-            i.proprietary.insert(foreign_prop_key(p, 0x16), p.bytes(n));
+            let k = foreign_prop_key(p, 0x16);
+            let n = if k.prefix != b"pset" && p.coin() { *p.pick(&[0usize, 1, 4, 8, 32, 33]) } else { p.len_biased(60) };
+            i.proprietary.insert(k, p.bytes(n));
         }
         for _ in 0..p.usize_below(3) {
             let n = p.len_biased(60);
@@ -530,6 +537,7 @@ pub fn output(p: &mut Prng, s: &PsetSpec, n_inputs: usize) -> Output {
             if k.prefix == b"pset" && k.subtype == 0 && p.coin() {
                 k.subtype = 0; // subtype 0x00 is not interpreted by the output map
             }
+            let n = if k.prefix != b"pset" && p.coin() { *p.pick(&[0usize, 1, 4, 8, 32, 33]) } else { n };
             o.proprietary.insert(k, p.bytes(n));
         }
         for _ in 0..p.usize_below(3) {
@@ -577,8 +585,9 @@ pub fn pset(s: &PsetSpec) -> Pset {
         ps.global.scalars = seen;
         if s.extras {
             for _ in 0..p.usize_below(3) {
-                let n = p.len_biased(60);
-                ps.global.proprietary.insert(foreign_prop_key(&mut p, 0x02), p.bytes(n));
+                let k = foreign_prop_key(&mut p, 0x02);
+                let n = if k.prefix != b"pset" && p.coin() { *p.pick(&[0usize, 1, 4, 8, 32, 33]) } else { p.len_biased(60) };
+                ps.global.proprietary.insert(k, p.bytes(n));
             }
             for _ in 0..p.usize_below(3) {
                 let n = p.len_biased(60);
@@ -608,7 +617,7 @@ pub fn pset(s: &PsetSpec) -> Pset {
     if s.elip {
         use elements::pset::elip100::{AssetMetadata, TokenMetadata};
         for _ in 0..p.usize_below(3) {
-            let n = p.usize_below(60);
+            let n = p.len_biased(300);
             let contract: String = (0..n).map(|_| (b' ' + (p.below(90) as u8)) as char).collect();
             ps.add_asset_metadata(gen::asset_id(&mut p), &AssetMetadata::new(contract, elements::OutPoint::new(gen::txid(&mut p), p.u32())));
         }
@@ -669,6 +678,52 @@ fn parse_maps(b: &[u8]) -> Option<Vec<RawMap>> {
 fn is_pset_prop(pair: &RawPair, subtype: u8) -> bool {
     // key data of a proprietary key: <varint prefix len><prefix><subtype><key>
     pair.key_type == 0xFC && pair.key_data.len() >= 6 && pair.key_data[0] == 4 && &pair.key_data[1..5] == b"pset" && pair.key_data[5] == subtype
+}
+
+/// A well-framed structural change that is NOT forbidden as such (no rejection is demanded, only totality and the
+/// fixpoint of whatever is accepted): one pair's VALUE is resized (cut to 0..3 bytes, one byte shorter or longer, or
+/// padded to a typical field width) with its length prefix rewritten to match, so the per-type value codecs meet
+/// values of the wrong size behind a correct frame.
+pub fn pset_resize_value(p: &mut Prng, reference: &[u8]) -> Option<Delivery> {
+    let maps = parse_maps(reference)?;
+    let all: Vec<&RawPair> = maps.iter().flat_map(|m| m.pairs.iter()).collect();
+    if all.is_empty() {
+        return None;
+    }
+    let pr = *p.pick(&all);
+    // <keylen varint><key type><key data><vallen varint><value>
+    let klen = 1 + pr.key_data.len();
+    let vpos = pr.start + medium::varint_len(klen as u64) + klen;
+    let (old_len, w) = match *reference.get(vpos)? {
+        0xFD => (u16::from_le_bytes(reference.get(vpos + 1..vpos + 3)?.try_into().ok()?) as usize, 3),
+        0xFE => (u32::from_le_bytes(reference.get(vpos + 1..vpos + 5)?.try_into().ok()?) as usize, 5),
+        0xFF => return None,
+        n => (n as usize, 1),
+    };
+    if vpos + w + old_len != pr.end {
+        return None;
+    }
+    let new_len = match p.below(8) {
+        0 => 0,
+        1 => p.usize_below(4),
+        2 => old_len.saturating_sub(1),
+        3 => old_len + 1,
+        4 => *p.pick(&[4usize, 8, 32, 33, 64, 65, 78]),
+        5 => old_len / 2,
+        6 => old_len + 4,
+        _ => old_len.saturating_sub(4),
+    };
+    if new_len == old_len {
+        return None;
+    }
+    let mut val = reference[vpos + w..pr.end].to_vec();
+    val.truncate(new_len);
+    while val.len() < new_len {
+        val.push(p.u8());
+    }
+    let mut ins = medium::varint_bytes(new_len as u64);
+    ins.extend(val);
+    Some(vec![Edit { label: "resize_value".into(), pos: vpos, remove: pr.end - vpos, insert: ins }])
 }
 
 /// One forbidden re-framing of a valid PSET encoding; the decoder must answer Err.
